@@ -322,8 +322,8 @@ class GridMachineBase(Machine):
         # (orientation of reversed connections, values rounded by a file round trip)
         self.model = got
         ctx.digest.add(what, sorted(got.b.items()),
-                       sorted((tuple(sorted(k)), sorted(v['dist'].items()), v['area'],
-                               v['dircos'], v['first']) for k, v in got.c.items()),
+                       sorted(((tuple(sorted(k)), sorted(v['dist'].items()), v['area'],
+                                v['dircos'], v['first']) for k, v in got.c.items()), key=repr),
                        [b.name for b in self.grid.blocklist],
                        [tuple(x.name for x in c.block) for c in self.grid.connectionlist],
                        sorted(got.r))
